@@ -6,7 +6,10 @@ holds differently -- those are not tool errors: the registry is built by the cod
 Hints of profiles P2.. are drawn with a fixed seed.
 MergedObject: M12 = MergedObject(MP, MQ), M21 = MergedObject(MQ, MP), and the Query root itself is a MergedObject of
 QueryCore and QueryExtra (order per profile).  The mirror lists the members' object-level hints in `merged`; the spec
-takes Merge of them as the object-level hint of the merged type."""
+takes Merge of them as the object-level hint of the merged type.
+Generic SimpleObject: `Boxed<T>` with `concrete(name = "IntBox", params(i32)), concrete(name = "StrBox", params(String))`
+and ONE object-level cache_control on the generic struct: both concrete types carry it (and the field-level hints of the
+struct's fields); reached through QueryExtra.ibox (IntBox) and QueryExtra.sbox ([StrBox!]!)."""
 import json, random
 
 DOMAIN = [(pub, age) for pub in (True, False) for age in (-1, 0, 1, 2, 60)]
@@ -22,7 +25,10 @@ SLOTS = [("Query", None), ("Query", "a"), ("Query", "b"), ("Query", "c"), ("Quer
 # slots of the MergedObject members (appended macro parameters)
 MSLOTS = [("QueryExtra", None), ("QueryExtra", "m12"), ("QueryExtra", "m21"), ("QueryExtra", "extra"),
           ("MP", None), ("MP", "mp1"), ("MP", "mp2"), ("MQ", None), ("MQ", "mq1")]
-MFIELDS = {"QueryExtra": {"m12": N("M12"), "m21": N("M21"), "extra": NN(N("Int"))},
+# slots of the generic SimpleObject Boxed<T> (appended macro parameters): the two root fields, the struct, its fields
+BSLOTS = [("QueryExtra", "ibox"), ("QueryExtra", "sbox"), ("Box", None), ("Box", "val"), ("Box", "fresh")]
+BOXES = {"IntBox": "Int", "StrBox": "String"}
+MFIELDS = {"QueryExtra": {"m12": N("M12"), "m21": N("M21"), "extra": NN(N("Int")), "ibox": N("IntBox"), "sbox": NN(L(NN(N("StrBox"))))},
            "MP": {"mp1": NN(N("Int")), "mp2": NN(N("Int"))}, "MQ": {"mq1": NN(N("Int"))}}
 ROOT_ORDER = {"P1": ["QueryCore", "QueryExtra"], "P2": ["QueryExtra", "QueryCore"], "P3": ["QueryCore", "QueryExtra"]}
 FIELDS = {
@@ -68,6 +74,10 @@ def family_ts(assign, name="P1"):
     for tname, members in (("M12", ["MP", "MQ"]), ("M21", ["MQ", "MP"])):
         types[tname] = {"kind": "OBJECT", "fields": mfields(members), "implements": [], "members": [], "values": [],
                         "hint": hint(merge([g(m) for m in members])), "merged": [hint(g(m)) for m in members]}
+    # concrete instantiations of the generic SimpleObject: each carries the struct's object-level and field-level hints
+    for tname, scalar in BOXES.items():
+        types[tname] = {"kind": "OBJECT", "fields": {"val": F(NN(N(scalar)), g("Box", "val")), "fresh": F(NN(N("Int")), g("Box", "fresh"))},
+                        "implements": [], "members": [], "values": [], "hint": hint(g("Box")), "merged": []}
     core = ("Query", None)
     order = ROOT_ORDER[name]
     root_members = [g("Query") if m == "QueryCore" else g("QueryExtra") for m in order]
@@ -75,7 +85,7 @@ def family_ts(assign, name="P1"):
     types["Query"]["hint"] = hint(merge(root_members))
     types["Query"]["merged"] = [hint(h) for h in root_members]
     return {"types": types, "query": "Query", "mutation": "", "subscription": "",
-            "objects": {"root": "Query", "a1": "A", "a2": "A", "b1": "B", "c1": "C", "m1": "M12", "m2": "M21"}}
+            "objects": {"root": "Query", "a1": "A", "a2": "A", "b1": "B", "c1": "C", "m1": "M12", "m2": "M21", "x1": "IntBox", "x2": "StrBox", "x3": "StrBox"}}
 
 profiles = {}
 # P1: hand-made: long-lived public root data, a private object (B), a no-cache object (C), a short-lived field
@@ -83,7 +93,9 @@ profiles["P1"] = {("Query", None): (True, 120), ("Query", "n"): (True, 60), ("A"
                   ("B", None): (False, 0), ("B", "z"): (True, 5), ("B", "tag"): (False, 40), ("C", None): (True, -1), ("C", "tag"): (True, 7), ("Query", "a"): (True, 90),
                   # merged members: the later member of M12 (MQ) is private and shorter-lived, the later root member is shorter-lived
                   ("QueryExtra", None): (True, 45), ("QueryExtra", "extra"): (True, 100), ("MP", None): (True, 50), ("MP", "mp1"): (True, 70),
-                  ("MQ", None): (False, 20), ("MQ", "mq1"): (True, 80)}
+                  ("MQ", None): (False, 20), ("MQ", "mq1"): (True, 80),
+                  # generic SimpleObject: private and short-lived as a type, one still shorter-lived field
+                  ("Box", None): (False, 15), ("Box", "fresh"): (True, 3), ("QueryExtra", "sbox"): (True, 25)}
 rng = random.Random(20260922)
 more = [(True, 5), (True, 10), (True, 30), (False, 30), (True, 300)]
 for name in ("P2", "P3"):
@@ -100,12 +112,20 @@ for name in ("P2", "P3"):
     while profiles[name][("MP", None)] == profiles[name][("MQ", None)]:
         profiles[name][("MQ", None)] = rng2.choice(DOMAIN + more)
 
+rng3 = random.Random(20260924)      # the generic SimpleObject slots, again drawn separately; the struct's own hint is never the default
+for name in ("P2", "P3"):
+    for sl in BSLOTS:
+        if sl[1] is None or rng3.random() < 0.5:
+            profiles[name][sl] = rng3.choice([d for d in DOMAIN + more if d != DEFAULT])
+if profiles["P2"][("Box", None)][0] and profiles["P3"][("Box", None)][0]:
+    profiles["P3"][("Box", None)] = (False, profiles["P3"][("Box", None)][1])     # one of the drawn profiles has a private box
+
 out = {"_doc": "Mirror of the C20 schema family (generated by checks/C20_genfam.py together with harness/vh/src/bin/c20_profiles.inc; the harness compares its structure with the live registry at start-up and reports differing hints). hint = [public, maxAge] of the object type / field; -1 = no-cache, 0 = unset. merged = object-level hints of the members of a MergedObject type in declaration order (the spec takes their Merge).",
        "domain": [hint(p) for p in DOMAIN], "profiles": {}}
 inc = ["// generated by /verif/checks/C20_genfam.py -- do not edit by hand\n"]
 for name, a in profiles.items():
     out["profiles"][name] = family_ts(a, name)
-    inc.append("family!(%s; %s; [%s]);\n" % (name.lower(), "; ".join("[%s]" % attr(a.get(s, DEFAULT)) for s in SLOTS + MSLOTS), ", ".join(ROOT_ORDER[name])))
+    inc.append("family!(%s; %s; [%s]);\n" % (name.lower(), "; ".join("[%s]" % attr(a.get(s, DEFAULT)) for s in SLOTS + MSLOTS + BSLOTS), ", ".join(ROOT_ORDER[name])))
 # the law profile: one leaf field per policy of the domain on a plain Query
 lf = {}
 law_fields = []
